@@ -221,7 +221,9 @@ func runC13(e *core.Env) {
 	// an image as an earlier invocation with a data limit left it: descriptors carry their content inline
 	inline := e.Choose("gen", 4, "inline") == 3
 	g.InlineChildren = inline
-	spec := gen.RealSpec{Docker: docker, Comp: comp, MinOwn: 1, Foreign: foreign, BuildArg: buildArg, Inline: inline}
+	// an image all of whose config times are one and the same instant (built with a fixed SOURCE_DATE_EPOCH)
+	flatTimes := !withBase && e.Choose("gen", 3, "flattimes") == 2
+	spec := gen.RealSpec{Docker: docker, Comp: comp, MinOwn: 1, Foreign: foreign, BuildArg: buildArg, Inline: inline, FlatTimes: flatTimes}
 	// the base images are published in the image's own repository or, as base images usually are, in another one
 	baseEP, baseRef := ep, base
 	if withBase && e.Choose("gen", 2, "baserepo") == 1 {
@@ -344,6 +346,10 @@ func runC13(e *core.Env) {
 		{"config-timestamp-max", func() mod.Opts { return mod.WithConfigTimestampMax(tMax) }, false, false},
 		{"config-timestamp-max-future(no-op)", func() mod.Opts { return mod.WithConfigTimestampMax(tFuture) }, true, false},
 		{"config-timestamp-set", func() mod.Opts { return mod.WithConfigTimestamp(mod.OptTime{Set: tSet}) }, false, false},
+		// the time to set is the one the image carries everywhere already, and lies after the cut-off: nothing changes
+		{"config-timestamp-set-own-time-after-cutoff", func() mod.Opts {
+			return mod.WithConfigTimestamp(mod.OptTime{Set: gen.RealBaseTime, After: gen.RealBaseTime.AddDate(-1, 0, 0)})
+		}, flatTimes && plainCfg, false},
 		{"config-timestamp-from-label", func() mod.Opts { return mod.WithConfigTimestampFromLabel("org.opencontainers.image.created") }, false, false},
 		{"layer-timestamp-max", func() mod.Opts { return mod.WithLayerTimestampMax(tMax) }, false, false},
 		{"layer-timestamp-max-future(no-op)", func() mod.Opts { return mod.WithLayerTimestampMax(tFuture) }, true, false},
